@@ -729,9 +729,15 @@ impl<'a> Parser<'a> {
             let op = self.current().clone();
             self.next()?;
 
-            let mut rhs = self.parse_unary_operator()?;
-            if token_precedence < self.get_token_precedence()? {
-                rhs = self.parse_binary_operator_rhs(token_precedence + 1, rhs)?;
+            let mut rhs;
+            if op == Token::LeftSquareParentheses {
+                // The subscript is delimited by the brackets: any expression may stand between them
+                rhs = self.parse_expression_internal()?;
+            } else {
+                rhs = self.parse_unary_operator()?;
+                if token_precedence < self.get_token_precedence()? {
+                    rhs = self.parse_binary_operator_rhs(token_precedence + 1, rhs)?;
+                }
             }
 
             match op {
@@ -823,14 +829,14 @@ impl<'a> Parser<'a> {
                     None => Err(self.create_error(ParserErrorType::NotDefinedBinaryOperator(op.clone())))
                 }
             }
-            Token::DoubleColon => Ok(7),
-            Token::Keyword(Keyword::Is) => Ok(2),
-            Token::Keyword(Keyword::IsNot) => Ok(2),
-            Token::Keyword(Keyword::In) => Ok(2),
-            Token::Keyword(Keyword::NotIn) => Ok(2),
-            Token::Keyword(Keyword::And) => Ok(1),
+            Token::DoubleColon => Ok(8),
+            Token::LeftSquareParentheses => Ok(8),
+            Token::Keyword(Keyword::Is) => Ok(4),
+            Token::Keyword(Keyword::IsNot) => Ok(4),
+            Token::Keyword(Keyword::In) => Ok(4),
+            Token::Keyword(Keyword::NotIn) => Ok(4),
+            Token::Keyword(Keyword::And) => Ok(2),
             Token::Keyword(Keyword::Or) => Ok(1),
-            Token::LeftSquareParentheses => Ok(1),
             _ => Ok(-1)
         }
     }
@@ -947,7 +953,15 @@ impl<'a> Parser<'a> {
             _ => {}
         };
 
+        // A prefix operator applies to everything that binds tighter than it does:
+        // NOT (3) to a whole comparison, unary minus (7) only to casts, subscripts and qualified names
+        let operand_precedence = match op_token {
+            Token::Keyword(Keyword::Not) => 3,
+            _ => 7
+        };
+
         let operand = self.parse_unary_operator()?;
+        let operand = self.parse_binary_operator_rhs(operand_precedence, operand)?;
         match op_token {
             Token::Operator(op) => {
                 if !self.unary_operators.exists(&op) {
